@@ -379,6 +379,9 @@ def template_cond(draw, ctx: Ctx, force=None):
         pos = ["and", f(), [["truth", T_], leaf(draw, ctx, [x])]]
         neg = ["and", f(), [["not", draw(st.sampled_from(["not_", "~"])), ["truth", T_]], leaf(draw, ctx, [x])]]
         parts = [pos, neg] if draw(st.booleans()) else [neg, pos]
+        # (KF-64: ... or ONE object for both occurrences, f = x.o; or_(and_(f, A), and_(not_(f), B)) - not_() rewrites its
+        # operand in place, which negates the other occurrence too)
+        ctx.same_object_plain_and_negated = chance(draw, 1, 4)
         return [draw(st.sampled_from(["or", "or", "and"])), f(), parts]
     if t == "truth_or_value_pred":
         # f = x.o stands in condition position AND is passed on, as a value, to a predicate - in one disjunction, so that
@@ -551,7 +554,11 @@ def query_case(draw, cfg: Cfg):
     case = {"ents": recs, "doms": doms, "vars": vars_, "cond": cond,
             "dom_kind": draw(st.sampled_from(cfg.dom_kinds)),
             "split_top": draw(st.booleans()), "quant": cfg.quant}
-    if chance(draw, 1, 4) or (getattr(ctx, "wants_shared_terms", False) and chance(draw, 2, 3)):
+    if getattr(ctx, "same_object_plain_and_negated", False):
+        case["same_object_plain_and_negated"] = True
+        case["share_terms"] = True
+        case["later_uses"] = False
+    elif chance(draw, 1, 4) or (getattr(ctx, "wants_shared_terms", False) and chance(draw, 2, 3)):
         case["share_terms"] = True      # equal mapping terms are ONE expression object (f = x.a used several times)
         # ... and after the query was built the same objects are mentioned once more, in expressions that are constructed
         # but never evaluated (build.later_uses)
